@@ -1,6 +1,7 @@
 import JmesVerif.Model.Slice
 import JmesVerif.Spec.PySlice
 import JmesVerif.Model.Encode
+import JmesVerif.Spec.GrammarCheck
 /-!
 Line-protocol driver for the model side of the correspondence streams (DESIGN §4.2).
 `jmdriver <stream>` reads one case per line on stdin and writes one result line per case.
@@ -46,13 +47,28 @@ def compileErrStr : CompileErr → String
   | .parse .fuel => "FAULT fuel"
   | .parse (.at p) => s!"E parse syn off={p}"
 
-/-- parse: `<expr hex>` → `ok <ast>` | `E parse …` -/
+/-- the statement of theorem T1 evaluated on one concrete successful parse (self-check) -/
+def t1Check (ts : List PT) (e : Expr) (a : Ast) : String :=
+  let want := (ts.map (fun t => GrammarCheck.tokStr t.2))
+  let got := (e.toks ++ [Tok.eof]).map GrammarCheck.tokStr
+  if want != got then "FAIL:yield"
+  else if !GrammarCheck.exprLegalB 0 e then "FAIL:legal"
+  else if Enc.astStr a.strip != Enc.astStr e.ast then "FAIL:ast"
+  else "ok"
+
+/-- parse: `<expr hex>` → `ok <ast>\tt1=…\tdev=f3,f4,f5,f16` | `E parse …` -/
 def streamParse (fields : List String) : String :=
   match fields with
   | [h] =>
-    match parseExpr (Enc.unhexStr h).toList with
-    | .ok (_, a) => "ok " ++ Enc.astStr a
-    | .error e => compileErrStr e
+    let cs := (Enc.unhexStr h).toList
+    match tokenize cs with
+    | .error e => compileErrStr (.lex e)
+    | .ok ts =>
+      match parseTokens ts with
+      | .error e => compileErrStr (.parse e)
+      | .ok (e, a) =>
+        let d := GrammarCheck.exprDev false e
+        s!"ok {Enc.astStr a}\tt1={t1Check ts e a}\tdev={d.f3},{d.f4},{d.f5},{d.f16}"
   | _ => "BADCASE"
 
 partial def loop (h : IO.FS.Stream) (out : IO.FS.Stream) (f : List String → String) : IO Unit := do
